@@ -12,7 +12,7 @@ use std::io::Write;
 const LEXEMES: &[&str] = &[
     "PRINT", "print", "GO", "TO", "GOTO", "GOSUB", "IF", "THEN", "ELSE", "FOR", "NEXT", "STEP", "OR", "AND", "NOT",
     "LET", "DIM", "DEF", "END", "STOP", "READ", "RESTORE", "RETURN", "INPUT", "REM", "DATA", "rem", "data",
-    "\"\"", "\"\",", "\\", "\u{fe0f}", "\u{200d}", "\u{7}", "C:\\DOS", "SC", "E", "x", "Y1", "A$", "TOTAL", "0", "1", "5", "25", ".", ".5", "\"", "\"hi\"", "<", ">", "=", "<=", "<>",
+    "\"\"", "\"\",", "\\", "\u{fe0f}", "\u{200d}", "\u{7}", "C:\\DOS", "\"-1\"", "\"1E3\"", "\"NAN\"", "\"inf\"", "\"+5\"", "-1", "1E3", "nan", "SC", "E", "x", "Y1", "A$", "TOTAL", "0", "1", "5", "25", ".", ".5", "\"", "\"hi\"", "<", ">", "=", "<=", "<>",
     ":", ",", ";", "$", " ", "  ", "\t", "+", "-", "*", "/", "^", "(", ")", "?", "é", "日", "%", "😊",
 ];
 
